@@ -343,13 +343,14 @@ def clause_group_image(prog, rep):
             for o in s.get("o", []):
                 c = o.get("c") if isinstance(o, dict) else None
                 if c and c.get("item") and "CONTEXT" in c["item"]:
-                    consts.setdefault(c["item"], set()).add(c.get("bytes") or c.get("str") or c.get("other"))
+                    consts.setdefault(c["item"], set()).add(c.get("bytes") or c.get("str"))
         for pr in f.promoted:
             for c in pr:
                 if c.get("item") and "CONTEXT" in c["item"]:
-                    consts.setdefault(c["item"], set()).add(c.get("bytes") or c.get("str") or c.get("other"))
+                    consts.setdefault(c["item"], set()).add(c.get("bytes") or c.get("str"))
     vals = [next(iter(v)) for v in consts.values() if v]
-    rep.check(len(consts) >= 2 and len(set(vals)) == len(vals), "group-image", "domain-separation",
+    # the labels' *values* (evaluated constants) must be known and pairwise distinct
+    rep.check(len(consts) >= 2 and all(v is not None for v in vals) and len(set(vals)) == len(vals), "group-image", "domain-separation",
               "the %d HKDF context labels are pairwise distinct" % len(consts), "HKDF context labels collide or are missing: %s" % {last_seg(k): sorted(map(str, v)) for k, v in consts.items()})
 
 
